@@ -254,6 +254,9 @@ func drawInput(r *rand.Rand) (*dhcpv4.DHCPv4, string) {
 					sc := []byte{2, 1, 9, 5, 1, 151, 2, 11}[r.IntN(8)]
 					d := gen4.Bytes(r, 1+r.IntN(8))
 					v = append(append(v, sc, byte(len(d))), d...)
+					if sc == 151 && r.IntN(2) == 0 { // with its companion, the empty VSS-control sub-option (RFC 6607)
+						v = append(v, 152, 0)
+					}
 				}
 				if r.IntN(4) == 0 {
 					v = append(v, 0)
@@ -498,12 +501,22 @@ func runCase(r *mon.Rec, idx int) {
 	}
 	// the built packet is the caller's: it updates options in it (a server filling in its reply); the packet it was
 	// built from stays what it was
+	merge := rng.IntN(3) == 0
+	if merge {
+		r.Count("post-build-merge", 1)
+	}
 	if pan2, _, _ := mon.Guard(func() {
 		for _, c := range []uint8{82, 61, 54, 55, 53} {
 			if v := res.Options.Get(dhcpv4.GenericOptionCode(c)); len(v) > 0 {
 				nv := make([]byte, len(v))
 				for i := range nv {
 					nv[i] = ^v[i]
+				}
+				if merge {
+					// options taken from elsewhere merged into the built packet: a second instance of a code continues
+					// the value already there (RFC 3396)
+					_ = res.Options.FromBytes(append([]byte{c, byte(min(len(nv), 3))}, nv[:min(len(nv), 3)]...))
+					continue
 				}
 				res.Options.Update(dhcpv4.OptGeneric(dhcpv4.GenericOptionCode(c), nv))
 			}
